@@ -90,7 +90,7 @@ func encodedTextOrigin(p *Program, v ssa.Value, fn *ssa.Function, depth int) (bo
 
 func urlParseRule(c *Ctx, pr *PropertyRun, prop string, inPkg func(string) bool) {
 	p := c.P
-	r := NewRule(prop, prop+".no-reparse", "url.Parse is applied only to encoded text — a header value, the text of an href element, the configured endpoint — never to a decoded resource path, where `?`, `#` and `%xx` are ordinary characters of the name (E4)")
+	r := NewRule(prop, prop+".no-reparse", "url.Parse (and URL.Parse) is applied only to encoded text — a header value, the text of an href element, the configured endpoint — never to a decoded resource path, where `?`, `#` and `%xx` are ordinary characters of the name; no path goes through URL reference resolution or JoinPath (E4)")
 	pr.Rules = append(pr.Rules, r)
 	for _, fn := range p.ModFns {
 		if !inLib(fn) || fnPkg(fn) == nil || len(fn.Blocks) == 0 {
@@ -102,13 +102,33 @@ func urlParseRule(c *Ctx, pr *PropertyRun, prop string, inPkg func(string) bool)
 		}
 		eachCall(fn, func(site ssa.CallInstruction) {
 			n := calleeName(site.Common())
-			if n != "net/url.Parse" && n != "net/url.ParseRequestURI" {
+			var textArgs []ssa.Value
+			switch n {
+			case "net/url.Parse", "net/url.ParseRequestURI":
+				textArgs = site.Common().Args[:1]
+			case "(*net/url.URL).Parse":
+				// resolves a reference given as URL text against the receiver
+				textArgs = site.Common().Args[1:2]
+			case "(*net/url.URL).JoinPath", "net/url.JoinPath":
+				// the elements are taken as already escaped and the result is
+				// decoded and cleaned
+				r.Role("url-resolution-site")
+				r.Ob(false)
+				r.Violation("resolve|"+fnKey(fn), p.instrPos(site), fmt.Sprintf("%s joins path elements with %s, which takes them as percent-encoded text and cleans the result: a decoded name containing `%%` is changed, cut or dropped", fnKey(fn), n), nil)
+				return
+			case "(*net/url.URL).ResolveReference":
+				// RFC 3986 resolution also removes dot segments of absolute paths
+				r.Role("url-resolution-site")
+				r.Ob(false)
+				r.Violation("resolve|"+fnKey(fn), p.instrPos(site), fmt.Sprintf("%s passes a path through URL reference resolution (ResolveReference): dot segments are removed and paths merged, so the path that comes out is not the path that was given", fnKey(fn)), nil)
+				return
+			default:
 				return
 			}
 			if !isCtl {
 				r.Role("url-parse-site")
 			}
-			ok, why := encodedTextOrigin(p, site.Common().Args[0], fn, 0)
+			ok, why := encodedTextOrigin(p, textArgs[0], fn, 0)
 			r.Ob(ok)
 			r.Sample(map[string]interface{}{"function": fnKey(fn), "argument": why, "ok": ok, "pos": p.instrPos(site)})
 			if !ok {
